@@ -23,6 +23,7 @@ META = {
                   "are C12's; small scope.",
     "design_ref": "5.4 C45",
 }
+META["level_text"] += _driver.SYSTEM_LEVEL_TEXT
 
 
 def run(ctx):
